@@ -954,22 +954,26 @@ func (n *node) Kill(pid gen.PID) error {
 		return gen.ErrNodeTerminated
 	}
 
+	lib.VerifPoint("kill.lookup", pid)
 	value, loaded := n.processes.Load(pid)
 	if loaded == false {
 		return gen.ErrProcessUnknown
 	}
 
 	p := value.(*process)
+	lib.VerifPoint("kill.zombie", p)
 	state := atomic.SwapInt32(&p.state, int32(gen.ProcessStateZombee))
 	switch state {
 	case int32(gen.ProcessStateWaitResponse), int32(gen.ProcessStateRunning):
 		// do not unregister process until its goroutine stopped
 		return nil
 	case int32(gen.ProcessStateTerminated):
+		lib.VerifPoint("kill.restore", p)
 		atomic.StoreInt32(&p.state, int32(gen.ProcessStateTerminated))
 		return nil
 	}
 
+	lib.VerifPoint("kill.term", p)
 	old := atomic.SwapInt32(&p.state, int32(gen.ProcessStateTerminated))
 	if old == int32(gen.ProcessStateTerminated) {
 		return nil
@@ -977,7 +981,10 @@ func (n *node) Kill(pid gen.PID) error {
 	// unregister process and stuff belonging to it
 	n.unregisterProcess(p, gen.TerminateReasonKill)
 
+	lib.VerifPoint("kill.spawn", p)
 	go func() {
+		lib.VerifPoint("kill.tbegin", p)
+		defer lib.VerifPoint("kill.tend", p)
 		if lib.Recover() {
 			defer func() {
 				if rcv := recover(); rcv != nil {
@@ -1690,6 +1697,7 @@ func (n *node) spawn(factory gen.ProcessFactory, options gen.ProcessOptionsExtra
 	}
 	p.log.setSource(logSource)
 
+	lib.VerifPoint("spawn.init", p)
 	if err := behavior.ProcessInit(p, options.Args...); err != nil {
 		n.names.Delete(p.name)
 		// make sure to notify children that might have been spawned
@@ -1730,6 +1738,7 @@ func (n *node) spawn(factory gen.ProcessFactory, options gen.ProcessOptionsExtra
 		n.targetManager.AddLink(p.pid, p.parent)
 	}
 
+	lib.VerifPoint("spawn.register", p)
 	// register process and switch it to the sleep state
 	p.state = int32(gen.ProcessStateSleep)
 	n.processes.Store(p.pid, p)
@@ -1747,7 +1756,9 @@ func (n *node) spawn(factory gen.ProcessFactory, options gen.ProcessOptionsExtra
 }
 
 func (n *node) unregisterProcess(p *process, reason error) {
+	lib.VerifPoint("unreg.delete", p)
 	n.processes.Delete(p.pid)
+	lib.VerifPoint("unreg.drain", p)
 	n.RouteTerminatePID(p.pid, reason)
 
 	if p.application != system.Name {
@@ -1756,17 +1767,20 @@ func (n *node) unregisterProcess(p *process, reason error) {
 	}
 	n.log.Trace("...unregisterProcess %s", p.pid)
 
+	lib.VerifPoint("unreg.name", p)
 	if p.registered.Load() {
 		n.names.Delete(p.name)
 		pname := gen.ProcessID{Name: p.name, Node: n.name}
 		n.RouteTerminateProcessID(pname, reason)
 	}
 
+	lib.VerifPoint("unreg.alias", p)
 	for _, a := range p.aliases {
 		n.aliases.Delete(a)
 		n.RouteTerminateAlias(a, reason)
 	}
 
+	lib.VerifPoint("unreg.event", p)
 	p.events.Range(func(k, _ any) bool {
 		ev := gen.Event{Name: k.(gen.Atom), Node: p.node.name}
 		n.events.Delete(ev)
@@ -1774,6 +1788,7 @@ func (n *node) unregisterProcess(p *process, reason error) {
 		return true
 	})
 
+	lib.VerifPoint("unreg.meta", p)
 	// send exit signal to the meta processes
 	p.metas.Range(func(_, v any) bool {
 		m := v.(*meta)
@@ -1798,6 +1813,7 @@ func (n *node) unregisterProcess(p *process, reason error) {
 		p.log.SetLevel(gen.LogLevelInfo)
 	}
 
+	lib.VerifPoint("unreg.app", p)
 	if p.application == "" {
 		return
 	}
